@@ -4,6 +4,7 @@ import AdaptiveModel.Avg
 import AdaptiveProofs.Lemmas.L1DBook
 import AdaptiveProofs.Lemmas.AvgBook
 import AdaptiveProofs.Lemmas.SeqBook
+import AdaptiveProofs.Lemmas.L2D
 
 /-!
 # C10 — telling is faithful bookkeeping: data, pending set and re-tells
@@ -177,4 +178,76 @@ theorem seq_asked_pending_until_told {β : Type} (s : Seq.State β) (n i : Nat)
   Seq.ask_commit_marks_pending s n i h
 end full
 
+end C10
+
+/-! ### Learner2D (bookkeeping model `AdaptiveModel/L2D.lean`; the geometry is an oracle, every `ask` of a history carries its
+own; proofs in `Lemmas/L2D.lean`) -/
+namespace C10
+section l2d
+open L2D
+variable {V L : Type}
+
+/-- Learner2D, every history with any oracles: `data[p]` is the value told LAST for `p` (`tell` OVERWRITES), and `npoints`
+is the number of DISTINCT told points. -/
+theorem l2d_data_is_last_told (c : Cfg L) (ops : List (Op V L)) :
+    (∀ p, aget (run c (init c) ops).data p = lastTold ops p) ∧
+    npoints (run c (init c) ops) = (toldPts ops).dedup.length :=
+  ⟨fun p => data_is_last_told c ops p, npoints_eq_distinct_told c ops⟩
+
+/-- one `tell`: the value is stored, nothing else in `data` changes; an in-bounds point leaves the pending set and the
+stack; a point outside the bounds touches neither. -/
+theorem l2d_tell (c : Cfg L) (s : State V L) (p : Nat) (v : V) :
+    aget (tell c s p v).data p = some v ∧ (∀ q, q ≠ p → aget (tell c s p v).data q = aget s.data q) ∧
+    (c.inB p = true → p ∉ (tell c s p v).pending ∧ p ∉ keys (tell c s p v).stack) ∧
+    (c.inB p = false → (tell c s p v).pending = s.pending ∧ (tell c s p v).stack = s.stack) :=
+  ⟨(tell_overwrites c s p v).1, (tell_overwrites c s p v).2, tell_inB_clears c s p v, tell_outside c s p v⟩
+
+/-- a re-tell with the SAME value leaves `data` (order included) and `npoints` as they were; its only effect is the
+`discard`/`pop` of the point; if the point is neither pending nor on the stack the state is unchanged. -/
+theorem l2d_retell_same (c : Cfg L) (s : State V L) (p : Nat) (v : V) (h : aget s.data p = some v) :
+    (tell c s p v).data = s.data ∧ npoints (tell c s p v) = npoints s ∧
+    (tell c s p v).pending = (if c.inB p then pdiscard s.pending p else s.pending) ∧
+    (tell c s p v).stack = (if c.inB p then apop s.stack p else s.stack) ∧
+    (p ∉ s.pending → p ∉ keys s.stack → tell c s p v = s) :=
+  ⟨(retell_same c s p v h).1, (retell_same c s p v h).2.1, (retell_same c s p v h).2.2.1, (retell_same c s p v h).2.2.2,
+   retell_same_noop c s p v h⟩
+
+/-- every in-bounds point a committing `ask` returns is pending afterwards, and stays pending along every continuation that
+neither tells it nor discards (oracles proposing fresh points; `L2D.Ex.nocommit_ask_can_unpend` without that). -/
+theorem l2d_asked_pending_until_told (c : Cfg L) (cands : Oracle V L) (s : State V L) (hinv : Inv1 c s)
+    (hc : CandsFresh cands) (n : Nat) {s' : State V L} {ret : List (Nat × L)}
+    (h : ask c cands s n true = (s', .ok ret)) :
+    ∀ q ∈ keys ret, c.inB q = true → q ∈ s'.pending ∧
+      ∀ ops : List (Op V L), (∀ op ∈ ops, KeepsPending q op) → q ∈ (run c s' ops).pending := by
+  intro q hq hb
+  have h1 := ask_commit_marks_pending c cands s n h q hq hb
+  have hinv' : Inv1 c s' := by
+    have := inv1_ask hinv cands hc n true; rw [h] at this; exact this
+  exact ⟨h1, fun ops hops => pending_stays_run hinv' h1 ops hops⟩
+
+/-- `remove_unfinished` empties the pending set, keeps the data, and queues every corner without a value at `inf`. -/
+theorem l2d_removeUnfinished (c : Cfg L) (s : State V L) :
+    (removeUnfinished c s).pending = [] ∧ (removeUnfinished c s).data = s.data ∧
+    ∀ p ∈ c.corners, p ∉ keys s.data → aget (removeUnfinished c s).stack p = some c.inf :=
+  removeUnfinished_spec c s
+
+/-- invariants of every reachable state, whatever the oracles answer: the pending set is duplicate free and in bounds, the
+stack and `data` hold one entry per key. -/
+theorem l2d_invariants (c : Cfg L) (ops : List (Op V L)) : Inv0 c (run c (init c) ops) :=
+  inv0_run (inv0_init c) ops
+
+/-- … and when every oracle proposes fresh points (`CandsFresh`: neither pending nor evaluated): no stack key is pending,
+no in-bounds stack key is evaluated.  `L2D.Ex.inv1_needs_fresh` / `inv1_needs_fresh_evaluated` are the kernel-checked
+counterexamples without the hypothesis. -/
+theorem l2d_invariants_fresh (c : Cfg L) (ops : List (Op V L)) (hops : ∀ op ∈ ops, OpFresh op) :
+    Inv1 c (run c (init c) ops) := inv1_reach c ops hops
+
+/-- the `while n_left > 0` loop of `ask` is modelled with `n_left` rounds of fuel; more fuel never changes the result, and the
+`diverge` outcome is reported exactly out of a round in which `_fill_stack` returned no point and changed nothing (the real
+loop then repeats that round for ever). -/
+theorem l2d_ask_loop_total (c : Cfg L) (cands : Oracle V L) (nl k : Nat) (s : State V L) (pts : List (Nat × L)) :
+    askLoop c cands (nl + k) nl s pts = askLoop c cands nl nl s pts ∧
+    ∀ s2, askLoop c cands nl nl s pts = (s2, .diverge) → ∃ till, fillStack cands s2 till = some (s2, []) :=
+  ⟨askLoop_fuel_ge c cands nl s pts k, fun s2 h => askLoop_diverge_iff_empty_round c cands nl nl s pts s2 (le_refl _) h⟩
+end l2d
 end C10
